@@ -81,9 +81,18 @@ static Paths64 run_real(const Paths64& paths, const Params& pr, double delta) {
     case 0: return InflatePaths(paths, delta, jt, et, ml, arc);
     case 1: { ClipperOffset co(ml, arc); co.AddPaths(paths, jt, et); co.Execute(delta, sol); return sol; }
     case 2: { ClipperOffset co(ml, arc); for (auto& p : paths) co.AddPath(p, jt, et); co.Execute(delta, sol); return sol; }
-    default: {
+    case 3: {
       ClipperOffset co(ml, arc); co.AddPaths(paths, jt, et);
       PolyTree64 tree; co.Execute(delta, tree); return PolyTreeToPaths64(tree);
+    }
+    case 4: {  // parameters given through the setters of a default-constructed object
+      ClipperOffset co; co.MiterLimit(ml); co.ArcTolerance(arc); co.AddPaths(paths, jt, et); co.Execute(delta, sol); return sol;
+    }
+    default: {  // an object constructed with other parameters and already executed, then re-parameterised through the setters
+      ClipperOffset co(ml + 1.75, arc * 3 + 1.5); co.AddPaths(paths, jt, et);
+      Paths64 junk; co.Execute(delta, junk);
+      co.MiterLimit(ml); co.ArcTolerance(arc);
+      co.Execute(delta, sol); return sol;
     }
   }
 }
@@ -271,7 +280,7 @@ int main(int argc, char** argv) {
     pr.jt = (int)(g.next() % 4);
     pr.et = 1 + (int)(g.next() % 4);
     pr.ml = pick_ml(g);
-    pr.api = (int)(g.next() % 4);
+    pr.api = (int)(g.next() % 6);
     StrokeInput in;
     if (!gen_input(g, pr.et, in)) { stat("gen.rejected"); continue; }
     int64_t eighths = log_uniform(g, 8, std::max<int64_t>(9, in.S * 8 / 2));
